@@ -247,6 +247,7 @@ impl Gen {
 			}
 			Err(e) => {
 				self.stat(&format!("generator:builder-rejected:{}", error_class(&e)));
+				complain(format!("on b{} (height {}): {}", parent, self.kit.blks[parent].height + 1, error_class(&e)));
 				None
 			}
 		}
@@ -532,6 +533,20 @@ impl Gen {
 			out.raw(&self.kit.blk_line(id));
 		}
 		self.blks_described = self.kit.blks.len();
+	}
+}
+
+/// blocks the generators intend as valid (by their own bookkeeping of the abstract state) but
+/// that the node building the tree refuses: printed as oracle failures at the end of the run
+static COMPLAINTS: std::sync::Mutex<Vec<String>> = std::sync::Mutex::new(Vec::new());
+
+fn complain(msg: String) {
+	COMPLAINTS.lock().unwrap().push(msg);
+}
+
+fn flush_complaints(out: &mut Out) {
+	for m in COMPLAINTS.lock().unwrap().drain(..) {
+		out.raw(&format!("#ORACLE-FAIL C03 a block that is valid by construction was refused by the node that builds the tree: {}", m));
 	}
 }
 
@@ -951,6 +966,7 @@ fn run_long(out: &mut Out, rng: &mut Rng, work: &str, user: bool) -> BTreeMap<St
 			}
 			Err(e) => {
 				*stats.entry(format!("generator:{}", e)).or_insert(0) += 1;
+				complain(format!("scripted chain: {}", e));
 			}
 		}
 	}
@@ -1096,6 +1112,7 @@ fn run_deep(out: &mut Out, rng: &mut Rng, work: &str) -> BTreeMap<String, u64> {
 			Ok(id) => trunk.push(id),
 			Err(e) => {
 				*stats.entry(format!("generator:{}", e)).or_insert(0) += 1;
+				complain(format!("scripted chain: {}", e));
 				break;
 			}
 		}
@@ -1110,7 +1127,18 @@ fn run_deep(out: &mut Out, rng: &mut Rng, work: &str) -> BTreeMap<String, u64> {
 				fork.push(id);
 				t = id;
 			}
-			Err(_) => break,
+			Err(e) => {
+				// every block of this script is valid by construction: a refusal by the node that
+				// builds the tree is itself the failure
+				out.raw(&format!(
+					"#ORACLE-FAIL C03 valid fork block at height {} (parent b{}, {} blocks below the head) refused by the node: {}",
+					kit.blks[t].height + 1,
+					t,
+					trunk.len() as u64 - 1 - kit.blks[t].height,
+					e
+				));
+				break;
+			}
 		}
 	}
 	// a second builder tree for the orphan scenario: a straight chain of MAX_ORPHAN_SIZE + 1 blocks
@@ -1120,7 +1148,10 @@ fn run_deep(out: &mut Out, rng: &mut Rng, work: &str) -> BTreeMap<String, u64> {
 		let parent = *line.last().unwrap();
 		match kit.new_block(parent, 200, &[]) {
 			Ok(id) => line.push(id),
-			Err(_) => break,
+			Err(e) => {
+				out.raw(&format!("#ORACLE-FAIL C03 valid block at height {} of a straight chain refused by the node: {}", line.len(), e));
+				break;
+			}
 		}
 	}
 	for l in kit.out_lines(0) {
@@ -1739,6 +1770,7 @@ fn main() {
 		for (k, v) in st {
 			out.raw(&format!("#STAT {}={}", k, v));
 		}
+		flush_complaints(&mut out);
 		out.flush();
 		return;
 	}
@@ -1747,6 +1779,7 @@ fn main() {
 		for (k, v) in st {
 			out.raw(&format!("#STAT {}={}", k, v));
 		}
+		flush_complaints(&mut out);
 		out.flush();
 		return;
 	}
@@ -1760,6 +1793,7 @@ fn main() {
 		for (k, v) in st {
 			out.raw(&format!("#STAT {}={}", k, v));
 		}
+		flush_complaints(&mut out);
 		out.flush();
 		return;
 	}
@@ -1774,5 +1808,6 @@ fn main() {
 	for (k, v) in total {
 		out.raw(&format!("#STAT {}={}", k, v));
 	}
+	flush_complaints(&mut out);
 	out.flush();
 }
